@@ -319,6 +319,10 @@ impl<'a> Printer<'a> {
             Step::Aggregate(items) => format!("aggregate {}", self.items(items)),
             Step::Group { keys, inner } => {
                 let ks: Vec<String> = keys.iter().map(|k| k.text.clone()).collect();
+                // every column of the frame as key, spelled `this` (first key text `this`)
+                if ks.first().map(|k| k == "this").unwrap_or(false) {
+                    return format!("group this ({})", self.steps(inner, lets, " | "));
+                }
                 format!("group {{{}}} ({})", ks.join(", "), self.steps(inner, lets, " | "))
             }
             Step::Window { frame, inner } => {
